@@ -143,6 +143,9 @@ impl Decoder for ClientCodec {
                 } else {
                     conn_type
                 };
+            } else if req.version < Version::HTTP_11 {
+                // an HTTP/1.0 connection persists only if the response says `keep-alive`
+                self.inner.conn_type = ConnectionType::Close;
             }
 
             // 1xx, 204 and 304 responses never have a body, but may still carry the
